@@ -69,6 +69,7 @@ func TestC12(t *testing.T) {
 	for i := 0; i < mon.Pick(90, 30000); i++ {
 		targets = append(targets, CustomTarget(i))
 	}
+	targets = append(targets, NoShareTargets()...) // specs without a usable key share in the first hello
 	type job struct {
 		t  Target
 		c  advCase
